@@ -9,6 +9,10 @@ type nat =
 | O
 | S of nat
 
+type ('a, 'b) sum =
+| Inl of 'a
+| Inr of 'b
+
 (** val fst : ('a1 * 'a2) -> 'a1 **)
 
 let fst = function
@@ -97,6 +101,13 @@ let rec nth_error l = function
            | [] -> None
            | _ :: l0 -> nth_error l0 n1)
 
+(** val remove : ('a1 -> 'a1 -> bool) -> 'a1 -> 'a1 list -> 'a1 list **)
+
+let rec remove eq_dec0 x = function
+| [] -> []
+| y :: tl ->
+  if eq_dec0 x y then remove eq_dec0 x tl else y :: (remove eq_dec0 x tl)
+
 (** val rev : 'a1 list -> 'a1 list **)
 
 let rec rev = function
@@ -121,6 +132,18 @@ let rec map f = function
 let rec flat_map f = function
 | [] -> []
 | x :: t -> app (f x) (flat_map f t)
+
+(** val existsb : ('a1 -> bool) -> 'a1 list -> bool **)
+
+let rec existsb f = function
+| [] -> false
+| a :: l0 -> (||) (f a) (existsb f l0)
+
+(** val forallb : ('a1 -> bool) -> 'a1 list -> bool **)
+
+let rec forallb f = function
+| [] -> true
+| a :: l0 -> (&&) (f a) (forallb f l0)
 
 (** val firstn : nat -> 'a1 list -> 'a1 list **)
 
@@ -351,6 +374,20 @@ module Coq_Pos =
   let rec of_succ_nat = function
   | O -> XH
   | S x -> succ (of_succ_nat x)
+
+  (** val eq_dec : positive -> positive -> bool **)
+
+  let rec eq_dec p x0 =
+    match p with
+    | XI p0 -> (match x0 with
+                | XI p1 -> eq_dec p0 p1
+                | _ -> false)
+    | XO p0 -> (match x0 with
+                | XO p1 -> eq_dec p0 p1
+                | _ -> false)
+    | XH -> (match x0 with
+             | XH -> true
+             | _ -> false)
  end
 
 module N =
@@ -491,6 +528,17 @@ module N =
   let of_nat = function
   | O -> N0
   | S n' -> Npos (Coq_Pos.of_succ_nat n')
+
+  (** val eq_dec : n -> n -> bool **)
+
+  let eq_dec n0 m =
+    match n0 with
+    | N0 -> (match m with
+             | N0 -> true
+             | Npos _ -> false)
+    | Npos p -> (match m with
+                 | N0 -> false
+                 | Npos p0 -> Coq_Pos.eq_dec p p0)
  end
 
 module Z =
@@ -2292,6 +2340,1041 @@ let run_stb = function
                | None -> s_bad)
             | None -> s_bad))))
 
+type fname =
+| Seg of n
+| Meta
+| MetaTmp
+| Other of n
+
+type mkind =
+| MCall
+| MAck
+
+type event =
+| OpenExcl of fname
+| OpenCreat of fname
+| OpenW of fname
+| Fallocate of fname * n * n * n
+| Pwrite of fname * n * n
+| Truncate of fname * n
+| Fsync of fname
+| Fdatasync of fname
+| FsyncDir
+| Unlink of fname
+| Rename of fname * fname
+| Close of fname
+| Mark of mkind * n * n
+
+type viol =
+| VMissingFileFsync
+| VMissingDirFsync
+| VDeleteNoDirFsync
+| VNonExclCreate
+| VBadFallocate
+| VNotPreallocated
+| VSegTruncated
+| VSegRenamed
+| VUnknownFile
+| VMetaNotRenamed
+| VMetaTmpNotSynced
+| VMetaDirNotSynced
+| VMetaNotSynced
+| VMetaUnlinked
+
+(** val memb : n -> n list -> bool **)
+
+let memb s l =
+  existsb (N.eqb s) l
+
+(** val del : n -> n list -> n list **)
+
+let del s l =
+  remove N.eq_dec s l
+
+(** val add0 : n -> n list -> n list **)
+
+let add0 s l =
+  if memb s l then l else s :: l
+
+type cst = { known : n list; nofalloc : n list; dirty : n list;
+             pendent : n list; written : n list; unl : bool;
+             tmp_exists : bool; tmp_dirty : bool; tmp_open : bool;
+             tmp_written : bool; meta_exists : bool; meta_dirty : bool;
+             ren_pending : bool }
+
+(** val c0 : cst **)
+
+let c0 =
+  { known = []; nofalloc = []; dirty = []; pendent = []; written = []; unl =
+    false; tmp_exists = false; tmp_dirty = false; tmp_open = false;
+    tmp_written = false; meta_exists = false; meta_dirty = false;
+    ren_pending = false }
+
+(** val set_segs :
+    cst -> n list -> n list -> n list -> n list -> n list -> bool -> cst **)
+
+let set_segs c k nf d p w u =
+  { known = k; nofalloc = nf; dirty = d; pendent = p; written = w; unl = u;
+    tmp_exists = c.tmp_exists; tmp_dirty = c.tmp_dirty; tmp_open =
+    c.tmp_open; tmp_written = c.tmp_written; meta_exists = c.meta_exists;
+    meta_dirty = c.meta_dirty; ren_pending = c.ren_pending }
+
+(** val set_meta :
+    cst -> bool -> bool -> bool -> bool -> bool -> bool -> bool -> cst **)
+
+let set_meta c te td to0 tw me md rp =
+  { known = c.known; nofalloc = c.nofalloc; dirty = c.dirty; pendent =
+    c.pendent; written = c.written; unl = c.unl; tmp_exists = te; tmp_dirty =
+    td; tmp_open = to0; tmp_written = tw; meta_exists = me; meta_dirty = md;
+    ren_pending = rp }
+
+(** val is_nil : n list -> bool **)
+
+let is_nil = function
+| [] -> true
+| _ :: _ -> false
+
+(** val ack_check : cst -> viol option **)
+
+let ack_check c =
+  if negb (is_nil c.dirty)
+  then Some VMissingFileFsync
+  else if negb (forallb (fun s -> negb (memb s c.written)) c.pendent)
+       then Some VMissingDirFsync
+       else if c.unl
+            then Some VDeleteNoDirFsync
+            else if c.ren_pending
+                 then Some VMetaDirNotSynced
+                 else if c.meta_dirty then Some VMetaNotSynced else None
+
+(** val tmp_write : cst -> (cst, viol) sum **)
+
+let tmp_write c =
+  if c.tmp_exists
+  then Inl
+         (set_meta c true true c.tmp_open true c.meta_exists c.meta_dirty
+           c.ren_pending)
+  else Inr VUnknownFile
+
+(** val meta_write : cst -> (cst, viol) sum **)
+
+let meta_write c =
+  if c.meta_exists
+  then Inl
+         (set_meta c c.tmp_exists c.tmp_dirty c.tmp_open c.tmp_written true
+           true c.ren_pending)
+  else Inr VUnknownFile
+
+(** val step : n -> cst -> event -> (cst, viol) sum **)
+
+let step segsize c = function
+| OpenExcl n0 ->
+  (match n0 with
+   | Seg s ->
+     if memb s c.known
+     then Inr VUnknownFile
+     else Inl
+            (set_segs c (s :: c.known) (add0 s c.nofalloc) (del s c.dirty)
+              (add0 s c.pendent) (del s c.written) c.unl)
+   | Meta -> if c.meta_exists then Inl c else Inr VMetaNotRenamed
+   | MetaTmp ->
+     if c.tmp_exists
+     then Inl
+            (set_meta c true c.tmp_dirty true c.tmp_written c.meta_exists
+              c.meta_dirty c.ren_pending)
+     else Inl
+            (set_meta c true false true false c.meta_exists c.meta_dirty
+              c.ren_pending)
+   | Other _ -> Inl c)
+| OpenCreat n0 ->
+  (match n0 with
+   | Seg _ -> Inr VNonExclCreate
+   | Meta -> if c.meta_exists then Inl c else Inr VMetaNotRenamed
+   | MetaTmp ->
+     if c.tmp_exists
+     then Inl
+            (set_meta c true c.tmp_dirty true c.tmp_written c.meta_exists
+              c.meta_dirty c.ren_pending)
+     else Inl
+            (set_meta c true false true false c.meta_exists c.meta_dirty
+              c.ren_pending)
+   | Other _ -> Inl c)
+| OpenW n0 ->
+  (match n0 with
+   | Seg s -> if memb s c.known then Inl c else Inr VUnknownFile
+   | Meta -> if c.meta_exists then Inl c else Inr VUnknownFile
+   | MetaTmp ->
+     if c.tmp_exists
+     then Inl
+            (set_meta c true c.tmp_dirty true c.tmp_written c.meta_exists
+              c.meta_dirty c.ren_pending)
+     else Inr VUnknownFile
+   | Other _ -> Inl c)
+| Fallocate (n0, mode, off, len0) ->
+  (match n0 with
+   | Seg s ->
+     if (&&) ((&&) ((&&) (memb s c.nofalloc) (N.eqb mode N0)) (N.eqb off N0))
+          (N.eqb len0 segsize)
+     then Inl
+            (set_segs c c.known (del s c.nofalloc) c.dirty c.pendent
+              c.written c.unl)
+     else Inr VBadFallocate
+   | Meta -> meta_write c
+   | MetaTmp -> tmp_write c
+   | Other _ -> Inl c)
+| Pwrite (n0, _, _) ->
+  (match n0 with
+   | Seg s ->
+     if negb (memb s c.known)
+     then Inr VUnknownFile
+     else if memb s c.nofalloc
+          then Inr VNotPreallocated
+          else Inl
+                 (set_segs c c.known c.nofalloc (add0 s c.dirty) c.pendent
+                   (add0 s c.written) c.unl)
+   | Meta -> meta_write c
+   | MetaTmp -> tmp_write c
+   | Other _ -> Inl c)
+| Truncate (n0, _) ->
+  (match n0 with
+   | Seg _ -> Inr VSegTruncated
+   | Meta -> meta_write c
+   | MetaTmp -> tmp_write c
+   | Other _ -> Inl c)
+| Fsync n0 ->
+  (match n0 with
+   | Seg s ->
+     if memb s c.known
+     then Inl
+            (set_segs c c.known c.nofalloc (del s c.dirty) c.pendent
+              c.written c.unl)
+     else Inr VUnknownFile
+   | Meta ->
+     if c.meta_exists
+     then Inl
+            (set_meta c c.tmp_exists c.tmp_dirty c.tmp_open c.tmp_written
+              true false c.ren_pending)
+     else Inr VUnknownFile
+   | MetaTmp ->
+     if c.tmp_exists
+     then Inl
+            (set_meta c true false c.tmp_open c.tmp_written c.meta_exists
+              c.meta_dirty c.ren_pending)
+     else Inr VUnknownFile
+   | Other _ -> Inl c)
+| Fdatasync n0 ->
+  (match n0 with
+   | Seg s ->
+     if memb s c.known
+     then Inl
+            (set_segs c c.known c.nofalloc (del s c.dirty) c.pendent
+              c.written c.unl)
+     else Inr VUnknownFile
+   | Meta ->
+     if c.meta_exists
+     then Inl
+            (set_meta c c.tmp_exists c.tmp_dirty c.tmp_open c.tmp_written
+              true false c.ren_pending)
+     else Inr VUnknownFile
+   | MetaTmp ->
+     if c.tmp_exists
+     then Inl
+            (set_meta c true false c.tmp_open c.tmp_written c.meta_exists
+              c.meta_dirty c.ren_pending)
+     else Inr VUnknownFile
+   | Other _ -> Inl c)
+| FsyncDir ->
+  Inl
+    (set_meta (set_segs c c.known c.nofalloc c.dirty [] c.written false)
+      c.tmp_exists c.tmp_dirty c.tmp_open c.tmp_written c.meta_exists
+      c.meta_dirty false)
+| Unlink n0 ->
+  (match n0 with
+   | Seg s ->
+     if memb s c.known
+     then Inl
+            (set_segs c (del s c.known) (del s c.nofalloc) (del s c.dirty)
+              (del s c.pendent) (del s c.written) true)
+     else Inr VUnknownFile
+   | Meta -> Inr VMetaUnlinked
+   | MetaTmp ->
+     Inl
+       (set_meta c false false false false c.meta_exists c.meta_dirty
+         c.ren_pending)
+   | Other _ -> Inl c)
+| Rename (a, b) ->
+  (match a with
+   | Seg _ -> Inr VSegRenamed
+   | Meta ->
+     (match b with
+      | Seg _ -> Inr VSegRenamed
+      | _ -> Inr VMetaNotRenamed)
+   | MetaTmp ->
+     (match b with
+      | Seg _ -> Inr VSegRenamed
+      | Meta ->
+        if (&&) ((&&) ((&&) c.tmp_exists c.tmp_written) (negb c.tmp_dirty))
+             (negb c.tmp_open)
+        then Inl (set_meta c false false false false true false true)
+        else Inr VMetaTmpNotSynced
+      | _ -> Inr VMetaNotRenamed)
+   | Other _ ->
+     (match b with
+      | Seg _ -> Inr VSegRenamed
+      | Other _ -> Inl c
+      | _ -> Inr VMetaNotRenamed))
+| Close n0 ->
+  (match n0 with
+   | MetaTmp ->
+     Inl
+       (set_meta c c.tmp_exists c.tmp_dirty false c.tmp_written c.meta_exists
+         c.meta_dirty c.ren_pending)
+   | _ -> Inl c)
+| Mark (k, _, _) ->
+  (match k with
+   | MCall -> Inl c
+   | MAck -> (match ack_check c with
+              | Some v -> Inr v
+              | None -> Inl c))
+
+(** val check : n -> cst -> nat -> event list -> (cst, nat * viol) sum **)
+
+let rec check segsize c i = function
+| [] -> Inl c
+| e :: r ->
+  (match step segsize c e with
+   | Inl c' -> check segsize c' (S i) r
+   | Inr v -> Inr (i, v))
+
+(** val final_ok : cst -> bool **)
+
+let final_ok c =
+  is_nil c.nofalloc
+
+(** val discipline_res : n -> event list -> (nat * viol) option **)
+
+let discipline_res segsize t =
+  match check segsize c0 O t with
+  | Inl c -> if final_ok c then None else Some ((length t), VBadFallocate)
+  | Inr iv -> Some iv
+
+type fsop =
+| FCreate of n
+| FOpenWriter of n
+| FWrite of n * n * n
+| FSync of n
+| FClose of n
+| FDelete of n
+| FMetaInit
+| FMetaCommit
+| FMark of mkind * n * n
+
+type handles = (n * bool) list
+
+(** val h_get : n -> handles -> bool option **)
+
+let rec h_get s = function
+| [] -> None
+| p :: r -> let (s', b) = p in if N.eqb s' s then Some b else h_get s r
+
+(** val h_del : n -> handles -> handles **)
+
+let rec h_del s = function
+| [] -> []
+| p :: r ->
+  let (s', b) = p in if N.eqb s' s then h_del s r else (s', b) :: (h_del s r)
+
+(** val h_set : n -> bool -> handles -> handles **)
+
+let h_set s b h =
+  (s, b) :: (h_del s h)
+
+(** val meta_init_events : event list **)
+
+let meta_init_events =
+  (OpenCreat MetaTmp) :: ((Pwrite (MetaTmp, N0, N0)) :: ((Fdatasync
+    MetaTmp) :: ((Close MetaTmp) :: ((Rename (MetaTmp,
+    Meta)) :: (FsyncDir :: ((OpenCreat Meta) :: []))))))
+
+(** val meta_commit_events : event list **)
+
+let meta_commit_events =
+  (Pwrite (Meta, N0, N0)) :: ((Fdatasync Meta) :: [])
+
+(** val fs_step : n -> handles -> fsop -> event list * handles **)
+
+let fs_step segsize h = function
+| FCreate s ->
+  (((OpenExcl (Seg s)) :: ((Fallocate ((Seg s), N0, N0, segsize)) :: [])),
+    (h_set s false h))
+| FOpenWriter s -> (((OpenW (Seg s)) :: []), (h_set s false h))
+| FWrite (s, off, len0) -> (((Pwrite ((Seg s), off, len0)) :: []), h)
+| FSync s ->
+  (match h_get s h with
+   | Some b ->
+     if b
+     then (((Fsync (Seg s)) :: []), h)
+     else (((Fsync (Seg s)) :: (FsyncDir :: [])), (h_set s true h))
+   | None -> (((Fsync (Seg s)) :: []), h))
+| FClose s -> (((Close (Seg s)) :: []), (h_del s h))
+| FDelete s -> (((Unlink (Seg s)) :: (FsyncDir :: [])), (h_del s h))
+| FMetaInit -> (meta_init_events, h)
+| FMetaCommit -> (meta_commit_events, h)
+| FMark (k, op, n0) -> (((Mark (k, op, n0)) :: []), h)
+
+(** val fs_trace_from : n -> handles -> fsop list -> event list **)
+
+let rec fs_trace_from segsize h = function
+| [] -> []
+| o :: r ->
+  let (ev, h') = fs_step segsize h o in app ev (fs_trace_from segsize h' r)
+
+(** val fs_trace : n -> fsop list -> event list **)
+
+let fs_trace segsize ops =
+  fs_trace_from segsize [] ops
+
+(** val colon : n **)
+
+let colon =
+  Npos (XO (XI (XO (XI (XI XH)))))
+
+(** val split_colon_aux : str -> str -> str list **)
+
+let rec split_colon_aux s cur =
+  match s with
+  | [] -> (rev_append cur []) :: []
+  | c :: r ->
+    if N.eqb c colon
+    then (rev_append cur []) :: (split_colon_aux r [])
+    else split_colon_aux r (c :: cur)
+
+(** val fields : str -> str list **)
+
+let fields s =
+  split_colon_aux s []
+
+(** val parse_fname : str -> fname option **)
+
+let parse_fname = function
+| [] -> None
+| n0 :: r ->
+  (match n0 with
+   | N0 -> None
+   | Npos p ->
+     (match p with
+      | XI p0 ->
+        (match p0 with
+         | XI p1 ->
+           (match p1 with
+            | XI p2 ->
+              (match p2 with
+               | XI p3 ->
+                 (match p3 with
+                  | XO p4 ->
+                    (match p4 with
+                     | XI p5 ->
+                       (match p5 with
+                        | XH ->
+                          (match hex_to_N r with
+                           | Some n1 -> Some (Other n1)
+                           | None -> None)
+                        | _ -> None)
+                     | _ -> None)
+                  | _ -> None)
+               | _ -> None)
+            | XO p2 ->
+              (match p2 with
+               | XO p3 ->
+                 (match p3 with
+                  | XI p4 ->
+                    (match p4 with
+                     | XI p5 ->
+                       (match p5 with
+                        | XH ->
+                          (match hex_to_N r with
+                           | Some n1 -> Some (Seg n1)
+                           | None -> None)
+                        | _ -> None)
+                     | _ -> None)
+                  | _ -> None)
+               | _ -> None)
+            | XH -> None)
+         | XO p1 ->
+           (match p1 with
+            | XI p2 ->
+              (match p2 with
+               | XI p3 ->
+                 (match p3 with
+                  | XO p4 ->
+                    (match p4 with
+                     | XI p5 ->
+                       (match p5 with
+                        | XH ->
+                          (match r with
+                           | [] -> Some Meta
+                           | _ :: _ -> None)
+                        | _ -> None)
+                     | _ -> None)
+                  | _ -> None)
+               | _ -> None)
+            | _ -> None)
+         | XH -> None)
+      | XO p0 ->
+        (match p0 with
+         | XO p1 ->
+           (match p1 with
+            | XI p2 ->
+              (match p2 with
+               | XO p3 ->
+                 (match p3 with
+                  | XI p4 ->
+                    (match p4 with
+                     | XI p5 ->
+                       (match p5 with
+                        | XH ->
+                          (match r with
+                           | [] -> Some MetaTmp
+                           | _ :: _ -> None)
+                        | _ -> None)
+                     | _ -> None)
+                  | _ -> None)
+               | _ -> None)
+            | _ -> None)
+         | _ -> None)
+      | XH -> None))
+
+(** val show_fname : fname -> str **)
+
+let show_fname = function
+| Seg n0 -> (Npos (XI (XI (XO (XO (XI (XI XH))))))) :: (n_to_hex n0)
+| Meta -> (Npos (XI (XO (XI (XI (XO (XI XH))))))) :: []
+| MetaTmp -> (Npos (XO (XO (XI (XO (XI (XI XH))))))) :: []
+| Other n0 -> (Npos (XI (XI (XI (XI (XO (XI XH))))))) :: (n_to_hex n0)
+
+(** val t_x : str **)
+
+let t_x =
+  (Npos (XO (XO (XO (XI (XI (XI XH))))))) :: []
+
+(** val t_c : str **)
+
+let t_c =
+  (Npos (XI (XI (XO (XO (XO (XI XH))))))) :: []
+
+(** val t_o : str **)
+
+let t_o =
+  (Npos (XI (XI (XI (XI (XO (XI XH))))))) :: []
+
+(** val t_fa : str **)
+
+let t_fa =
+  (Npos (XO (XI (XI (XO (XO (XI XH))))))) :: ((Npos (XI (XO (XO (XO (XO (XI
+    XH))))))) :: [])
+
+(** val t_w : str **)
+
+let t_w =
+  (Npos (XI (XI (XI (XO (XI (XI XH))))))) :: []
+
+(** val t_tr : str **)
+
+let t_tr =
+  (Npos (XO (XO (XI (XO (XI (XI XH))))))) :: ((Npos (XO (XI (XO (XO (XI (XI
+    XH))))))) :: [])
+
+(** val t_fs : str **)
+
+let t_fs =
+  (Npos (XO (XI (XI (XO (XO (XI XH))))))) :: ((Npos (XI (XI (XO (XO (XI (XI
+    XH))))))) :: [])
+
+(** val t_fd : str **)
+
+let t_fd =
+  (Npos (XO (XI (XI (XO (XO (XI XH))))))) :: ((Npos (XO (XO (XI (XO (XO (XI
+    XH))))))) :: [])
+
+(** val t_fD : str **)
+
+let t_fD =
+  (Npos (XO (XI (XI (XO (XO (XI XH))))))) :: ((Npos (XO (XO (XI (XO (XO (XO
+    XH))))))) :: [])
+
+(** val t_u : str **)
+
+let t_u =
+  (Npos (XI (XO (XI (XO (XI (XI XH))))))) :: []
+
+(** val t_r : str **)
+
+let t_r =
+  (Npos (XO (XI (XO (XO (XI (XI XH))))))) :: []
+
+(** val t_cl : str **)
+
+let t_cl =
+  (Npos (XI (XI (XO (XO (XO (XI XH))))))) :: ((Npos (XO (XO (XI (XI (XO (XI
+    XH))))))) :: [])
+
+(** val t_mc : str **)
+
+let t_mc =
+  (Npos (XI (XO (XI (XI (XO (XI XH))))))) :: ((Npos (XI (XI (XO (XO (XO (XI
+    XH))))))) :: [])
+
+(** val t_ma : str **)
+
+let t_ma =
+  (Npos (XI (XO (XI (XI (XO (XI XH))))))) :: ((Npos (XI (XO (XO (XO (XO (XI
+    XH))))))) :: [])
+
+(** val parse_event : str -> event option **)
+
+let parse_event tok =
+  match fields tok with
+  | [] -> None
+  | k :: l ->
+    (match l with
+     | [] -> if str_eqb k t_fD then Some FsyncDir else None
+     | a :: l0 ->
+       (match l0 with
+        | [] ->
+          (match parse_fname a with
+           | Some f ->
+             if str_eqb k t_x
+             then Some (OpenExcl f)
+             else if str_eqb k t_c
+                  then Some (OpenCreat f)
+                  else if str_eqb k t_o
+                       then Some (OpenW f)
+                       else if str_eqb k t_fs
+                            then Some (Fsync f)
+                            else if str_eqb k t_fd
+                                 then Some (Fdatasync f)
+                                 else if str_eqb k t_u
+                                      then Some (Unlink f)
+                                      else if str_eqb k t_cl
+                                           then Some (Close f)
+                                           else None
+           | None -> None)
+        | b :: l1 ->
+          (match l1 with
+           | [] ->
+             if str_eqb k t_r
+             then (match parse_fname a with
+                   | Some f ->
+                     (match parse_fname b with
+                      | Some g -> Some (Rename (f, g))
+                      | None -> None)
+                   | None -> None)
+             else if str_eqb k t_tr
+                  then (match parse_fname a with
+                        | Some f ->
+                          (match hex_to_N b with
+                           | Some n0 -> Some (Truncate (f, n0))
+                           | None -> None)
+                        | None -> None)
+                  else if str_eqb k t_mc
+                       then (match hex_to_N a with
+                             | Some op ->
+                               (match hex_to_N b with
+                                | Some n0 -> Some (Mark (MCall, op, n0))
+                                | None -> None)
+                             | None -> None)
+                       else if str_eqb k t_ma
+                            then (match hex_to_N a with
+                                  | Some op ->
+                                    (match hex_to_N b with
+                                     | Some n0 -> Some (Mark (MAck, op, n0))
+                                     | None -> None)
+                                  | None -> None)
+                            else None
+           | c :: l2 ->
+             (match l2 with
+              | [] ->
+                if str_eqb k t_w
+                then (match parse_fname a with
+                      | Some f ->
+                        (match hex_to_N b with
+                         | Some off ->
+                           (match hex_to_N c with
+                            | Some len0 -> Some (Pwrite (f, off, len0))
+                            | None -> None)
+                         | None -> None)
+                      | None -> None)
+                else None
+              | d :: l3 ->
+                (match l3 with
+                 | [] ->
+                   if str_eqb k t_fa
+                   then (match parse_fname a with
+                         | Some f ->
+                           (match hex_to_N b with
+                            | Some m ->
+                              (match hex_to_N c with
+                               | Some off ->
+                                 (match hex_to_N d with
+                                  | Some len0 ->
+                                    Some (Fallocate (f, m, off, len0))
+                                  | None -> None)
+                               | None -> None)
+                            | None -> None)
+                         | None -> None)
+                   else None
+                 | _ :: _ -> None)))))
+
+(** val parse_all :
+    (str -> 'a1 option) -> str list -> 'a1 list -> 'a1 list option **)
+
+let rec parse_all p ts acc =
+  match ts with
+  | [] -> Some (rev_append acc [])
+  | t :: r ->
+    (match p t with
+     | Some a -> parse_all p r (a :: acc)
+     | None -> None)
+
+(** val jc : str list -> str **)
+
+let rec jc = function
+| [] -> []
+| x :: r -> (match r with
+             | [] -> x
+             | _ :: _ -> app x (colon :: (jc r)))
+
+(** val show_event : event -> str **)
+
+let show_event = function
+| OpenExcl f -> jc (t_x :: ((show_fname f) :: []))
+| OpenCreat f -> jc (t_c :: ((show_fname f) :: []))
+| OpenW f -> jc (t_o :: ((show_fname f) :: []))
+| Fallocate (f, m, o, l) ->
+  jc
+    (t_fa :: ((show_fname f) :: ((n_to_hex m) :: ((n_to_hex o) :: ((n_to_hex
+                                                                    l) :: [])))))
+| Pwrite (f, o, l) ->
+  jc (t_w :: ((show_fname f) :: ((n_to_hex o) :: ((n_to_hex l) :: []))))
+| Truncate (f, l) -> jc (t_tr :: ((show_fname f) :: ((n_to_hex l) :: [])))
+| Fsync f -> jc (t_fs :: ((show_fname f) :: []))
+| Fdatasync f -> jc (t_fd :: ((show_fname f) :: []))
+| FsyncDir -> t_fD
+| Unlink f -> jc (t_u :: ((show_fname f) :: []))
+| Rename (a, b) -> jc (t_r :: ((show_fname a) :: ((show_fname b) :: [])))
+| Close f -> jc (t_cl :: ((show_fname f) :: []))
+| Mark (k, op, n0) ->
+  (match k with
+   | MCall -> jc (t_mc :: ((n_to_hex op) :: ((n_to_hex n0) :: [])))
+   | MAck -> jc (t_ma :: ((n_to_hex op) :: ((n_to_hex n0) :: []))))
+
+(** val show_viol : viol -> str **)
+
+let show_viol = function
+| VMissingFileFsync ->
+  (Npos (XI (XO (XI (XI (XO (XI XH))))))) :: ((Npos (XI (XO (XO (XI (XO (XI
+    XH))))))) :: ((Npos (XI (XI (XO (XO (XI (XI XH))))))) :: ((Npos (XI (XI
+    (XO (XO (XI (XI XH))))))) :: ((Npos (XI (XO (XO (XI (XO (XI
+    XH))))))) :: ((Npos (XO (XI (XI (XI (XO (XI XH))))))) :: ((Npos (XI (XI
+    (XI (XO (XO (XI XH))))))) :: ((Npos (XI (XO (XI (XI (XO
+    XH)))))) :: ((Npos (XO (XI (XI (XO (XO (XI XH))))))) :: ((Npos (XI (XO
+    (XO (XI (XO (XI XH))))))) :: ((Npos (XO (XO (XI (XI (XO (XI
+    XH))))))) :: ((Npos (XI (XO (XI (XO (XO (XI XH))))))) :: ((Npos (XI (XO
+    (XI (XI (XO XH)))))) :: ((Npos (XO (XI (XI (XO (XO (XI
+    XH))))))) :: ((Npos (XI (XI (XO (XO (XI (XI XH))))))) :: ((Npos (XI (XO
+    (XO (XI (XI (XI XH))))))) :: ((Npos (XO (XI (XI (XI (XO (XI
+    XH))))))) :: ((Npos (XI (XI (XO (XO (XO (XI
+    XH))))))) :: [])))))))))))))))))
+| VMissingDirFsync ->
+  (Npos (XI (XO (XI (XI (XO (XI XH))))))) :: ((Npos (XI (XO (XO (XI (XO (XI
+    XH))))))) :: ((Npos (XI (XI (XO (XO (XI (XI XH))))))) :: ((Npos (XI (XI
+    (XO (XO (XI (XI XH))))))) :: ((Npos (XI (XO (XO (XI (XO (XI
+    XH))))))) :: ((Npos (XO (XI (XI (XI (XO (XI XH))))))) :: ((Npos (XI (XI
+    (XI (XO (XO (XI XH))))))) :: ((Npos (XI (XO (XI (XI (XO
+    XH)))))) :: ((Npos (XO (XO (XI (XO (XO (XI XH))))))) :: ((Npos (XI (XO
+    (XO (XI (XO (XI XH))))))) :: ((Npos (XO (XI (XO (XO (XI (XI
+    XH))))))) :: ((Npos (XI (XO (XI (XI (XO XH)))))) :: ((Npos (XO (XI (XI
+    (XO (XO (XI XH))))))) :: ((Npos (XI (XI (XO (XO (XI (XI
+    XH))))))) :: ((Npos (XI (XO (XO (XI (XI (XI XH))))))) :: ((Npos (XO (XI
+    (XI (XI (XO (XI XH))))))) :: ((Npos (XI (XI (XO (XO (XO (XI
+    XH))))))) :: []))))))))))))))))
+| VDeleteNoDirFsync ->
+  (Npos (XO (XO (XI (XO (XO (XI XH))))))) :: ((Npos (XI (XO (XI (XO (XO (XI
+    XH))))))) :: ((Npos (XO (XO (XI (XI (XO (XI XH))))))) :: ((Npos (XI (XO
+    (XI (XO (XO (XI XH))))))) :: ((Npos (XO (XO (XI (XO (XI (XI
+    XH))))))) :: ((Npos (XI (XO (XI (XO (XO (XI XH))))))) :: ((Npos (XI (XO
+    (XI (XI (XO XH)))))) :: ((Npos (XI (XI (XI (XO (XI (XI
+    XH))))))) :: ((Npos (XI (XO (XO (XI (XO (XI XH))))))) :: ((Npos (XO (XO
+    (XI (XO (XI (XI XH))))))) :: ((Npos (XO (XO (XO (XI (XO (XI
+    XH))))))) :: ((Npos (XI (XI (XI (XI (XO (XI XH))))))) :: ((Npos (XI (XO
+    (XI (XO (XI (XI XH))))))) :: ((Npos (XO (XO (XI (XO (XI (XI
+    XH))))))) :: ((Npos (XI (XO (XI (XI (XO XH)))))) :: ((Npos (XO (XO (XI
+    (XO (XO (XI XH))))))) :: ((Npos (XI (XO (XO (XI (XO (XI
+    XH))))))) :: ((Npos (XO (XI (XO (XO (XI (XI XH))))))) :: ((Npos (XI (XO
+    (XI (XI (XO XH)))))) :: ((Npos (XO (XI (XI (XO (XO (XI
+    XH))))))) :: ((Npos (XI (XI (XO (XO (XI (XI XH))))))) :: ((Npos (XI (XO
+    (XO (XI (XI (XI XH))))))) :: ((Npos (XO (XI (XI (XI (XO (XI
+    XH))))))) :: ((Npos (XI (XI (XO (XO (XO (XI
+    XH))))))) :: [])))))))))))))))))))))))
+| VNonExclCreate ->
+  (Npos (XO (XI (XI (XI (XO (XI XH))))))) :: ((Npos (XI (XI (XI (XI (XO (XI
+    XH))))))) :: ((Npos (XO (XI (XI (XI (XO (XI XH))))))) :: ((Npos (XI (XO
+    (XI (XI (XO XH)))))) :: ((Npos (XI (XO (XI (XO (XO (XI
+    XH))))))) :: ((Npos (XO (XO (XO (XI (XI (XI XH))))))) :: ((Npos (XI (XI
+    (XO (XO (XO (XI XH))))))) :: ((Npos (XO (XO (XI (XI (XO (XI
+    XH))))))) :: ((Npos (XI (XO (XI (XO (XI (XI XH))))))) :: ((Npos (XI (XI
+    (XO (XO (XI (XI XH))))))) :: ((Npos (XI (XO (XO (XI (XO (XI
+    XH))))))) :: ((Npos (XO (XI (XI (XO (XI (XI XH))))))) :: ((Npos (XI (XO
+    (XI (XO (XO (XI XH))))))) :: ((Npos (XI (XO (XI (XI (XO
+    XH)))))) :: ((Npos (XI (XI (XO (XO (XO (XI XH))))))) :: ((Npos (XO (XI
+    (XO (XO (XI (XI XH))))))) :: ((Npos (XI (XO (XI (XO (XO (XI
+    XH))))))) :: ((Npos (XI (XO (XO (XO (XO (XI XH))))))) :: ((Npos (XO (XO
+    (XI (XO (XI (XI XH))))))) :: ((Npos (XI (XO (XI (XO (XO (XI
+    XH))))))) :: [])))))))))))))))))))
+| VBadFallocate ->
+  (Npos (XO (XI (XO (XO (XO (XI XH))))))) :: ((Npos (XI (XO (XO (XO (XO (XI
+    XH))))))) :: ((Npos (XO (XO (XI (XO (XO (XI XH))))))) :: ((Npos (XI (XO
+    (XI (XI (XO XH)))))) :: ((Npos (XO (XI (XI (XO (XO (XI
+    XH))))))) :: ((Npos (XI (XO (XO (XO (XO (XI XH))))))) :: ((Npos (XO (XO
+    (XI (XI (XO (XI XH))))))) :: ((Npos (XO (XO (XI (XI (XO (XI
+    XH))))))) :: ((Npos (XI (XI (XI (XI (XO (XI XH))))))) :: ((Npos (XI (XI
+    (XO (XO (XO (XI XH))))))) :: ((Npos (XI (XO (XO (XO (XO (XI
+    XH))))))) :: ((Npos (XO (XO (XI (XO (XI (XI XH))))))) :: ((Npos (XI (XO
+    (XI (XO (XO (XI XH))))))) :: []))))))))))))
+| VNotPreallocated ->
+  (Npos (XO (XI (XI (XI (XO (XI XH))))))) :: ((Npos (XI (XI (XI (XI (XO (XI
+    XH))))))) :: ((Npos (XO (XO (XI (XO (XI (XI XH))))))) :: ((Npos (XI (XO
+    (XI (XI (XO XH)))))) :: ((Npos (XO (XO (XO (XO (XI (XI
+    XH))))))) :: ((Npos (XO (XI (XO (XO (XI (XI XH))))))) :: ((Npos (XI (XO
+    (XI (XO (XO (XI XH))))))) :: ((Npos (XI (XO (XO (XO (XO (XI
+    XH))))))) :: ((Npos (XO (XO (XI (XI (XO (XI XH))))))) :: ((Npos (XO (XO
+    (XI (XI (XO (XI XH))))))) :: ((Npos (XI (XI (XI (XI (XO (XI
+    XH))))))) :: ((Npos (XI (XI (XO (XO (XO (XI XH))))))) :: ((Npos (XI (XO
+    (XO (XO (XO (XI XH))))))) :: ((Npos (XO (XO (XI (XO (XI (XI
+    XH))))))) :: ((Npos (XI (XO (XI (XO (XO (XI XH))))))) :: ((Npos (XO (XO
+    (XI (XO (XO (XI XH))))))) :: [])))))))))))))))
+| VSegTruncated ->
+  (Npos (XI (XI (XO (XO (XI (XI XH))))))) :: ((Npos (XI (XO (XI (XO (XO (XI
+    XH))))))) :: ((Npos (XI (XI (XI (XO (XO (XI XH))))))) :: ((Npos (XI (XO
+    (XI (XI (XO (XI XH))))))) :: ((Npos (XI (XO (XI (XO (XO (XI
+    XH))))))) :: ((Npos (XO (XI (XI (XI (XO (XI XH))))))) :: ((Npos (XO (XO
+    (XI (XO (XI (XI XH))))))) :: ((Npos (XI (XO (XI (XI (XO
+    XH)))))) :: ((Npos (XO (XO (XI (XO (XI (XI XH))))))) :: ((Npos (XO (XI
+    (XO (XO (XI (XI XH))))))) :: ((Npos (XI (XO (XI (XO (XI (XI
+    XH))))))) :: ((Npos (XO (XI (XI (XI (XO (XI XH))))))) :: ((Npos (XI (XI
+    (XO (XO (XO (XI XH))))))) :: ((Npos (XI (XO (XO (XO (XO (XI
+    XH))))))) :: ((Npos (XO (XO (XI (XO (XI (XI XH))))))) :: ((Npos (XI (XO
+    (XI (XO (XO (XI XH))))))) :: ((Npos (XO (XO (XI (XO (XO (XI
+    XH))))))) :: []))))))))))))))))
+| VSegRenamed ->
+  (Npos (XI (XI (XO (XO (XI (XI XH))))))) :: ((Npos (XI (XO (XI (XO (XO (XI
+    XH))))))) :: ((Npos (XI (XI (XI (XO (XO (XI XH))))))) :: ((Npos (XI (XO
+    (XI (XI (XO (XI XH))))))) :: ((Npos (XI (XO (XI (XO (XO (XI
+    XH))))))) :: ((Npos (XO (XI (XI (XI (XO (XI XH))))))) :: ((Npos (XO (XO
+    (XI (XO (XI (XI XH))))))) :: ((Npos (XI (XO (XI (XI (XO
+    XH)))))) :: ((Npos (XO (XI (XO (XO (XI (XI XH))))))) :: ((Npos (XI (XO
+    (XI (XO (XO (XI XH))))))) :: ((Npos (XO (XI (XI (XI (XO (XI
+    XH))))))) :: ((Npos (XI (XO (XO (XO (XO (XI XH))))))) :: ((Npos (XI (XO
+    (XI (XI (XO (XI XH))))))) :: ((Npos (XI (XO (XI (XO (XO (XI
+    XH))))))) :: ((Npos (XO (XO (XI (XO (XO (XI XH))))))) :: []))))))))))))))
+| VUnknownFile ->
+  (Npos (XI (XO (XI (XO (XI (XI XH))))))) :: ((Npos (XO (XI (XI (XI (XO (XI
+    XH))))))) :: ((Npos (XI (XI (XO (XI (XO (XI XH))))))) :: ((Npos (XO (XI
+    (XI (XI (XO (XI XH))))))) :: ((Npos (XI (XI (XI (XI (XO (XI
+    XH))))))) :: ((Npos (XI (XI (XI (XO (XI (XI XH))))))) :: ((Npos (XO (XI
+    (XI (XI (XO (XI XH))))))) :: ((Npos (XI (XO (XI (XI (XO
+    XH)))))) :: ((Npos (XO (XI (XI (XO (XO (XI XH))))))) :: ((Npos (XI (XO
+    (XO (XI (XO (XI XH))))))) :: ((Npos (XO (XO (XI (XI (XO (XI
+    XH))))))) :: ((Npos (XI (XO (XI (XO (XO (XI XH))))))) :: [])))))))))))
+| VMetaNotRenamed ->
+  (Npos (XI (XO (XI (XI (XO (XI XH))))))) :: ((Npos (XI (XO (XI (XO (XO (XI
+    XH))))))) :: ((Npos (XO (XO (XI (XO (XI (XI XH))))))) :: ((Npos (XI (XO
+    (XO (XO (XO (XI XH))))))) :: ((Npos (XI (XO (XI (XI (XO
+    XH)))))) :: ((Npos (XO (XI (XI (XI (XO (XI XH))))))) :: ((Npos (XI (XI
+    (XI (XI (XO (XI XH))))))) :: ((Npos (XO (XO (XI (XO (XI (XI
+    XH))))))) :: ((Npos (XI (XO (XI (XI (XO XH)))))) :: ((Npos (XO (XI (XO
+    (XO (XI (XI XH))))))) :: ((Npos (XI (XO (XI (XO (XO (XI
+    XH))))))) :: ((Npos (XO (XI (XI (XI (XO (XI XH))))))) :: ((Npos (XI (XO
+    (XO (XO (XO (XI XH))))))) :: ((Npos (XI (XO (XI (XI (XO (XI
+    XH))))))) :: ((Npos (XI (XO (XI (XO (XO (XI XH))))))) :: ((Npos (XO (XO
+    (XI (XO (XO (XI XH))))))) :: [])))))))))))))))
+| VMetaTmpNotSynced ->
+  (Npos (XI (XO (XI (XI (XO (XI XH))))))) :: ((Npos (XI (XO (XI (XO (XO (XI
+    XH))))))) :: ((Npos (XO (XO (XI (XO (XI (XI XH))))))) :: ((Npos (XI (XO
+    (XO (XO (XO (XI XH))))))) :: ((Npos (XI (XO (XI (XI (XO
+    XH)))))) :: ((Npos (XO (XO (XI (XO (XI (XI XH))))))) :: ((Npos (XI (XO
+    (XI (XI (XO (XI XH))))))) :: ((Npos (XO (XO (XO (XO (XI (XI
+    XH))))))) :: ((Npos (XI (XO (XI (XI (XO XH)))))) :: ((Npos (XO (XI (XI
+    (XI (XO (XI XH))))))) :: ((Npos (XI (XI (XI (XI (XO (XI
+    XH))))))) :: ((Npos (XO (XO (XI (XO (XI (XI XH))))))) :: ((Npos (XI (XO
+    (XI (XI (XO XH)))))) :: ((Npos (XI (XI (XO (XO (XI (XI
+    XH))))))) :: ((Npos (XI (XO (XO (XI (XI (XI XH))))))) :: ((Npos (XO (XI
+    (XI (XI (XO (XI XH))))))) :: ((Npos (XI (XI (XO (XO (XO (XI
+    XH))))))) :: ((Npos (XI (XO (XI (XO (XO (XI XH))))))) :: ((Npos (XO (XO
+    (XI (XO (XO (XI XH))))))) :: []))))))))))))))))))
+| VMetaDirNotSynced ->
+  (Npos (XI (XO (XI (XI (XO (XI XH))))))) :: ((Npos (XI (XO (XI (XO (XO (XI
+    XH))))))) :: ((Npos (XO (XO (XI (XO (XI (XI XH))))))) :: ((Npos (XI (XO
+    (XO (XO (XO (XI XH))))))) :: ((Npos (XI (XO (XI (XI (XO
+    XH)))))) :: ((Npos (XO (XO (XI (XO (XO (XI XH))))))) :: ((Npos (XI (XO
+    (XO (XI (XO (XI XH))))))) :: ((Npos (XO (XI (XO (XO (XI (XI
+    XH))))))) :: ((Npos (XI (XO (XI (XI (XO XH)))))) :: ((Npos (XO (XI (XI
+    (XI (XO (XI XH))))))) :: ((Npos (XI (XI (XI (XI (XO (XI
+    XH))))))) :: ((Npos (XO (XO (XI (XO (XI (XI XH))))))) :: ((Npos (XI (XO
+    (XI (XI (XO XH)))))) :: ((Npos (XI (XI (XO (XO (XI (XI
+    XH))))))) :: ((Npos (XI (XO (XO (XI (XI (XI XH))))))) :: ((Npos (XO (XI
+    (XI (XI (XO (XI XH))))))) :: ((Npos (XI (XI (XO (XO (XO (XI
+    XH))))))) :: ((Npos (XI (XO (XI (XO (XO (XI XH))))))) :: ((Npos (XO (XO
+    (XI (XO (XO (XI XH))))))) :: []))))))))))))))))))
+| VMetaNotSynced ->
+  (Npos (XI (XO (XI (XI (XO (XI XH))))))) :: ((Npos (XI (XO (XI (XO (XO (XI
+    XH))))))) :: ((Npos (XO (XO (XI (XO (XI (XI XH))))))) :: ((Npos (XI (XO
+    (XO (XO (XO (XI XH))))))) :: ((Npos (XI (XO (XI (XI (XO
+    XH)))))) :: ((Npos (XO (XI (XI (XI (XO (XI XH))))))) :: ((Npos (XI (XI
+    (XI (XI (XO (XI XH))))))) :: ((Npos (XO (XO (XI (XO (XI (XI
+    XH))))))) :: ((Npos (XI (XO (XI (XI (XO XH)))))) :: ((Npos (XI (XI (XO
+    (XO (XI (XI XH))))))) :: ((Npos (XI (XO (XO (XI (XI (XI
+    XH))))))) :: ((Npos (XO (XI (XI (XI (XO (XI XH))))))) :: ((Npos (XI (XI
+    (XO (XO (XO (XI XH))))))) :: ((Npos (XI (XO (XI (XO (XO (XI
+    XH))))))) :: ((Npos (XO (XO (XI (XO (XO (XI XH))))))) :: []))))))))))))))
+| VMetaUnlinked ->
+  (Npos (XI (XO (XI (XI (XO (XI XH))))))) :: ((Npos (XI (XO (XI (XO (XO (XI
+    XH))))))) :: ((Npos (XO (XO (XI (XO (XI (XI XH))))))) :: ((Npos (XI (XO
+    (XO (XO (XO (XI XH))))))) :: ((Npos (XI (XO (XI (XI (XO
+    XH)))))) :: ((Npos (XI (XO (XI (XO (XI (XI XH))))))) :: ((Npos (XO (XI
+    (XI (XI (XO (XI XH))))))) :: ((Npos (XO (XO (XI (XI (XO (XI
+    XH))))))) :: ((Npos (XI (XO (XO (XI (XO (XI XH))))))) :: ((Npos (XO (XI
+    (XI (XI (XO (XI XH))))))) :: ((Npos (XI (XI (XO (XI (XO (XI
+    XH))))))) :: ((Npos (XI (XO (XI (XO (XO (XI XH))))))) :: ((Npos (XO (XO
+    (XI (XO (XO (XI XH))))))) :: []))))))))))))
+
+(** val s_viol : str **)
+
+let s_viol =
+  (Npos (XO (XI (XI (XO (XI (XI XH))))))) :: ((Npos (XI (XO (XO (XI (XO (XI
+    XH))))))) :: ((Npos (XI (XI (XI (XI (XO (XI XH))))))) :: ((Npos (XO (XO
+    (XI (XI (XO (XI XH))))))) :: [])))
+
+(** val run_fst : str list -> str **)
+
+let run_fst = function
+| [] -> s_bad
+| seg :: evs ->
+  (match hex_to_N seg with
+   | Some seg0 ->
+     (match parse_all parse_event evs [] with
+      | Some t ->
+        (match discipline_res seg0 t with
+         | Some p ->
+           let (i, v) = p in
+           join (s_viol :: ((n_to_hex (N.of_nat i)) :: ((show_viol v) :: [])))
+         | None -> s_ok)
+      | None -> s_bad)
+   | None -> s_bad)
+
+(** val t_cr : str **)
+
+let t_cr =
+  (Npos (XI (XI (XO (XO (XO (XI XH))))))) :: ((Npos (XO (XI (XO (XO (XI (XI
+    XH))))))) :: [])
+
+(** val t_ow : str **)
+
+let t_ow =
+  (Npos (XI (XI (XI (XI (XO (XI XH))))))) :: ((Npos (XI (XI (XI (XO (XI (XI
+    XH))))))) :: [])
+
+(** val t_wr : str **)
+
+let t_wr =
+  (Npos (XI (XI (XI (XO (XI (XI XH))))))) :: ((Npos (XO (XI (XO (XO (XI (XI
+    XH))))))) :: [])
+
+(** val t_sy : str **)
+
+let t_sy =
+  (Npos (XI (XI (XO (XO (XI (XI XH))))))) :: ((Npos (XI (XO (XO (XI (XI (XI
+    XH))))))) :: [])
+
+(** val t_de : str **)
+
+let t_de =
+  (Npos (XO (XO (XI (XO (XO (XI XH))))))) :: ((Npos (XI (XO (XI (XO (XO (XI
+    XH))))))) :: [])
+
+(** val t_mi : str **)
+
+let t_mi =
+  (Npos (XI (XO (XI (XI (XO (XI XH))))))) :: ((Npos (XI (XO (XO (XI (XO (XI
+    XH))))))) :: [])
+
+(** val parse_fsop : str -> fsop option **)
+
+let parse_fsop tok =
+  match fields tok with
+  | [] -> None
+  | k :: l ->
+    (match l with
+     | [] ->
+       if str_eqb k t_mi
+       then Some FMetaInit
+       else if str_eqb k t_mc then Some FMetaCommit else None
+     | a :: l0 ->
+       (match l0 with
+        | [] ->
+          (match hex_to_N a with
+           | Some s ->
+             if str_eqb k t_cr
+             then Some (FCreate s)
+             else if str_eqb k t_ow
+                  then Some (FOpenWriter s)
+                  else if str_eqb k t_sy
+                       then Some (FSync s)
+                       else if str_eqb k t_cl
+                            then Some (FClose s)
+                            else if str_eqb k t_de
+                                 then Some (FDelete s)
+                                 else None
+           | None -> None)
+        | b :: l1 ->
+          (match l1 with
+           | [] -> None
+           | c :: l2 ->
+             (match l2 with
+              | [] ->
+                if str_eqb k t_wr
+                then (match hex_to_N a with
+                      | Some s ->
+                        (match hex_to_N b with
+                         | Some off ->
+                           (match hex_to_N c with
+                            | Some len0 -> Some (FWrite (s, off, len0))
+                            | None -> None)
+                         | None -> None)
+                      | None -> None)
+                else None
+              | _ :: _ -> None))))
+
+(** val s_dash1 : str **)
+
+let s_dash1 =
+  (Npos (XI (XO (XI (XI (XO XH)))))) :: []
+
+(** val run_fso : str list -> str **)
+
+let run_fso = function
+| [] -> s_bad
+| seg :: ops ->
+  (match hex_to_N seg with
+   | Some seg0 ->
+     (match parse_all parse_fsop ops [] with
+      | Some ops0 ->
+        (match fs_trace seg0 ops0 with
+         | [] -> s_dash1
+         | e :: l -> join (map show_event (e :: l)))
+      | None -> s_bad)
+   | None -> s_bad)
+
 (** val k_enc : str **)
 
 let k_enc =
@@ -2316,6 +3399,18 @@ let k_stb =
   (Npos (XI (XI (XO (XO (XI (XI XH))))))) :: ((Npos (XO (XO (XI (XO (XI (XI
     XH))))))) :: ((Npos (XO (XI (XO (XO (XO (XI XH))))))) :: []))
 
+(** val k_fst : str **)
+
+let k_fst =
+  (Npos (XO (XI (XI (XO (XO (XI XH))))))) :: ((Npos (XI (XI (XO (XO (XI (XI
+    XH))))))) :: ((Npos (XO (XO (XI (XO (XI (XI XH))))))) :: []))
+
+(** val k_fso : str **)
+
+let k_fso =
+  (Npos (XO (XI (XI (XO (XO (XI XH))))))) :: ((Npos (XI (XI (XO (XO (XI (XI
+    XH))))))) :: ((Npos (XI (XI (XI (XI (XO (XI XH))))))) :: []))
+
 (** val run_line : str -> str **)
 
 let run_line line =
@@ -2328,4 +3423,8 @@ let run_line line =
          then run_dec args
          else if str_eqb cmd k_mig
               then run_mig args
-              else if str_eqb cmd k_stb then run_stb args else s_bad
+              else if str_eqb cmd k_stb
+                   then run_stb args
+                   else if str_eqb cmd k_fst
+                        then run_fst args
+                        else if str_eqb cmd k_fso then run_fso args else s_bad
